@@ -205,3 +205,29 @@ Proof.
   pose proof (written_file_seeks o L md5 Hmd p rate bps wo ch ts ws [samples] iv e rp Hwf Hiv Hs) as H.
   rewrite Hcat1 in H. exact (H Hfit HW Hlen Htot').
 Qed.
+
+(* C08 "never Panic" for the other two front-ends, by equality of runs: in a debug build a FlacByteWriter /
+   FlacChannelWriter run can only stop on the overflow trap of a 2^64 counter (the block encoder is assumed not to panic) *)
+From FlacWriters Require Safety_proofs Props_C08.
+
+Theorem byte_run_safe_debug : forall enc_block md5 en o rate bps ch total w (chunks : list (list N)),
+  (forall l, length (md5 l) = 16%nat) -> (forall n b, is_panic (enc_block n b) = false) ->
+  options_wf o -> byte_new Debug en [] o rate bps ch total = Ok w -> Forall byte_ok (concat chunks) ->
+  match byte_run enc_block md5 Debug w chunks with Panic k => k = POverflow | _ => True end.
+Proof.
+  intros enc_block md5 en o rate bps ch total w chunks Hmd Henc Hwf Hnew Hbytes.
+  destruct (byte_new_sample_new Debug en o rate bps ch total w Hnew) as (ts & ws & Hs & Et).
+  rewrite (byte_writer_is_sample_writer enc_block md5 Debug en o rate bps ch total ts w ws chunks Hwf Hnew Hs Et Hbytes).
+  exact (FlacWriters.Props_C08.C08_no_panic_sample_debug enc_block md5 [] o rate bps ch ts ws _ Hmd Henc Hwf Hs).
+Qed.
+
+Theorem channel_run_safe_debug : forall enc_block md5 o rate bps ch total w (chunks : list (list (list Z))),
+  (forall l, length (md5 l) = 16%nat) -> (forall n b, is_panic (enc_block n b) = false) ->
+  options_wf o -> channel_new Debug [] o rate bps ch total = Ok w -> Forall (chunk_ok (N.to_nat ch)) chunks ->
+  match channel_run enc_block md5 Debug w chunks with Panic k => k = POverflow | _ => True end.
+Proof.
+  intros enc_block md5 o rate bps ch total w chunks Hmd Henc Hwf Hnew Hchunks.
+  destruct (channel_new_sample_new Debug o rate bps ch total w Hnew) as (ts & ws & Hs & Et).
+  rewrite (channel_writer_is_sample_writer enc_block md5 Debug o rate bps ch total ts w ws chunks Hwf Hnew Hs Et Hchunks).
+  exact (FlacWriters.Props_C08.C08_no_panic_sample_debug enc_block md5 [] o rate bps ch ts ws _ Hmd Henc Hwf Hs).
+Qed.
